@@ -107,6 +107,81 @@ theorem failures_accumulate (p : BreakerCfg) (s : BreakerSt) (t t' : Int)
 example : (Breaker.run ⟨2, 10⟩ ⟨0, 0⟩ [(1, 1, false), (2, 2, false), (3, 3, true), (20, 20, true), (21, 21, true)]).2
     = [.failed, .failed, .refused, .ok, .ok] := by decide
 
+
+/-! ### the discovery client stops dialling (second sentence of the property) -/
+
+/-- an attempt is refused without dialling exactly while the breaker is open; the refusal changes nothing -/
+theorem dial_refused_iff (p : BreakerCfg) (s : BreakerSt) (t t' : Int) (o : Bool) :
+    (Dial.step p s t t' o).2 = .open ↔ (p.threshold ≤ s.failures ∧ t - s.lastFailureTime ≤ p.window) := by
+  simp only [Dial.step, Breaker.ready, Breaker.fail, Breaker.reset]
+  by_cases h1 : t - s.lastFailureTime > p.window
+  · have : ¬ (t - s.lastFailureTime ≤ p.window) := by omega
+    simp [h1, this]
+    cases o <;> simp
+  · have h1' : t - s.lastFailureTime ≤ p.window := by omega
+    by_cases h2 : s.failures < p.threshold
+    · have : ¬ (p.threshold ≤ s.failures) := by omega
+      simp [h1, h2, this]
+      cases o <;> simp
+    · have : p.threshold ≤ s.failures := by omega
+      simp [h1, h1', h2, this]
+
+theorem dial_refused_unchanged (p : BreakerCfg) (s : BreakerSt) (t t' : Int) (o : Bool)
+    (h : (Dial.step p s t t' o).2 = .open) : (Dial.step p s t t' o).1 = s := by
+  have hh := (dial_refused_iff p s t t' o).1 h
+  simp only [Dial.step, Breaker.ready, Breaker.fail, Breaker.reset] at h ⊢
+  have h1 : ¬ (t - s.lastFailureTime > p.window) := by omega
+  have h2 : ¬ (s.failures < p.threshold) := by omega
+  simp [h1, h2]
+
+/-- **stops dialling**: a run of failing attempts whose clock readings all lie in one stretch
+    `[T, T + window]` (so no window elapses between them) reaches the network exactly
+    `threshold − failures-so-far` times, however long the run is; every later attempt is refused. -/
+theorem dial_count (p : BreakerCfg) (T : Int) : ∀ (evs : List (Int × Int × Bool)) (s : BreakerSt),
+    (∀ e ∈ evs, e.2.2 = false ∧ T ≤ e.1 ∧ e.1 ≤ e.2.1 ∧ e.2.1 ≤ T + p.window) →
+    T ≤ s.lastFailureTime → s.lastFailureTime ≤ T + p.window →
+    Dial.dials (Dial.run p s evs).2 = min evs.length (p.threshold - s.failures) := by
+  intro evs
+  induction evs with
+  | nil => intro s _ _ _; simp [Dial.run, Dial.dials]
+  | cons e es ih =>
+    intro s hev h1 h2
+    obtain ⟨t, t', o⟩ := e
+    have he := hev (t, t', o) (List.mem_cons_self ..)
+    simp only at he
+    obtain ⟨ho, ht1, ht2, ht3⟩ := he
+    subst ho
+    have hes : ∀ e ∈ es, e.2.2 = false ∧ T ≤ e.1 ∧ e.1 ≤ e.2.1 ∧ e.2.1 ≤ T + p.window :=
+      fun e he => hev e (List.mem_cons_of_mem _ he)
+    have hw : ¬ (t - s.lastFailureTime > p.window) := by omega
+    by_cases hf : s.failures < p.threshold
+    · -- dialled and failed: one more failure, recorded at t'
+      have hstep : Dial.step p s t t' false = (⟨t', s.failures + 1⟩, .dialedFail) := by
+        simp [Dial.step, Breaker.ready, Breaker.fail, Breaker.reset, hw, hf]
+      have := ih ⟨t', s.failures + 1⟩ hes (by simp; omega) (by simp; omega)
+      simp only [Dial.run, hstep, Dial.dials] at this ⊢
+      simp only [List.filter_cons, show (DialRes.dialedFail != DialRes.open) = true from rfl, if_true,
+        List.length_cons, this]
+      omega
+    · have hstep : Dial.step p s t t' false = (s, .open) := by
+        simp [Dial.step, Breaker.ready, Breaker.fail, Breaker.reset, hw, hf]
+      have := ih s hes h1 h2
+      simp only [Dial.run, hstep, Dial.dials] at this ⊢
+      simp only [List.filter_cons, show (DialRes.open != DialRes.open) = false from rfl,
+        Bool.false_eq_true, if_false, List.length_cons, this]
+      omega
+
+/-- …and once the window has elapsed since the last recorded failure the client dials again -/
+theorem dial_after_window (p : BreakerCfg) (s : BreakerSt) (t t' : Int) (o : Bool)
+    (h : t - s.lastFailureTime > p.window) : (Dial.step p s t t' o).2 ≠ .open := by
+  intro hc
+  have := (dial_refused_iff p s t t' o).1 hc
+  omega
+
+/-- non-vacuity: threshold 2, seven failing attempts inside one window: two dials, five refusals; then one after it -/
+example : (Dial.run ⟨2, 100⟩ ⟨0, 0⟩ [(1, 1, false), (2, 2, false), (3, 3, false), (4, 4, false), (5, 5, false), (200, 200, false)]).2
+    = [.dialedFail, .dialedFail, .open, .open, .open, .dialedFail] := by decide
+
 /-- the tie: ready/success/fail/reset (and the exported wrappers) were translated from the current source -/
 theorem tie_breaker : Gen.breakerTieOk = true := by decide
 
